@@ -70,6 +70,8 @@ func denomStr(d int) string {
 		return "btc" // valid, held by everybody, not the bond denom
 	case 5:
 		return "feetok" // symbol of a token of scale 6 issued by the token driver's setup (min unit "ufeetok")
+	case 6:
+		return "ufeetok" // that token's MIN UNIT: a valid denom and a registered min unit, but not a symbol
 	case 10:
 		return "htltbnb"
 	case 11:
@@ -81,7 +83,7 @@ func denomStr(d int) string {
 }
 
 func denomClass(s string) int {
-	for _, d := range []int{0, 1, 2, 3, 4, 5, 10, 11, 12} {
+	for _, d := range []int{0, 1, 2, 3, 4, 5, 6, 10, 11, 12} {
 		if denomStr(d) == s {
 			return d
 		}
